@@ -65,6 +65,9 @@ def concrete(tag: str, v: int = 0, palette: int = 0):
         return date(2020 + (palette % 3), 1, 1) + timedelta(days=v)
     if tag == "datetime":
         return datetime(2021, 6, 1, 12, 0) + timedelta(days=v, minutes=palette)
+    if tag == "dtsame":
+        # timestamps of ONE calendar day (order preserving): ordering must look at the time of day
+        return datetime(2021, 6, 1, 0, 0) + timedelta(minutes=37 * v + 400 + palette)
     if tag == "list":
         return [v, palette]
     if tag == "dict":
@@ -91,6 +94,10 @@ class StrSub(str):
 
 
 class DateSub(date):
+    pass
+
+
+class DatetimeSub(datetime):
     pass
 
 
